@@ -467,6 +467,13 @@ def r17_6(ctx):
                                      ("expect", "B"), ("loop",), ("exit", "B"), ("loop",)], [("A", True, UP), ("B", True, UP)]),
         "cancelled-waiter-listed": ([("enter", "A", UP), ("enter", "B", UP), ("cancel", "A"), ("event", UP), ("expect", "B"), ("loop",), ("exit", "A"), ("exit", "B"), ("loop",)],
                                     [("B", True, UP)]),
+        # an event seen *before* the operation started does not complete it (a remembered last status goes stale across a reset or a
+        # second run of the same operation): the waiter that registers afterwards is completed only by a new event
+        "event-before-wait": ([("event", UP), ("loop",), ("enter", "A", UP), ("loop",), ("expect", "A"), ("event", UP), ("expect", "A"), ("loop",), ("exit", "A"),
+                               ("loop",)], [("A", False, None), ("A", True, UP)]),
+        "second-operation": ([("enter", "A", UP), ("event", UP), ("expect", "A"), ("loop",), ("exit", "A"), ("loop",), ("enter", "B", UP), ("loop",), ("expect", "B"),
+                              ("event", DOWN), ("expect", "B"), ("event", UP), ("expect", "B"), ("loop",), ("exit", "B"), ("loop",)],
+                             [("A", True, UP), ("B", False, None), ("B", False, None), ("B", True, UP)]),
         "two-statuses-interleaved": ([("enter", "A", UP), ("enter", "D", DOWN), ("event", DOWN), ("expect", "A"), ("expect", "D"), ("event", UP), ("expect", "A"), ("loop",),
                                       ("exit", "A"), ("exit", "D"), ("loop",)], [("A", False, None), ("D", True, DOWN), ("A", True, UP)]),
     }
